@@ -182,6 +182,11 @@ struct PkgSrc {
   /// the root imports this export of the package (a used export is an
   /// entrypoint of the analysis and part of the cache key)
   root_imports_extra: bool,
+  /// further published versions with the same files
+  extra_versions: Vec<String>,
+  /// the helper package whose private import pins an old version of the
+  /// dependency package; the root imports it only while this is set
+  pin: Option<bool>,
 }
 
 const MEMBER_BASE: &str = "file:///ws/m/";
@@ -294,6 +299,8 @@ fn gen_pkg(tape: &mut Tape, name: &str, dep: Option<&str>) -> PkgSrc {
     exports,
     member: false,
     root_imports_extra: true,
+    extra_versions: vec![],
+    pin: None,
   }
 }
 
@@ -328,13 +335,21 @@ fn world_of(pkgs: &[PkgSrc], with_extra_import: bool) -> World {
       manifest_missing: false,
     };
     let mut pkg = Package::default();
+    for v in &p.extra_versions {
+      pkg.versions.insert(v.clone(), pv.clone());
+    }
     pkg.versions.insert(p.version.clone(), pv);
     w.registry.packages.insert(p.name.clone(), pkg);
   }
   w.render_registry(&crate::checks::worlds::embed_info);
   let mut main = ModuleDesc::new(format!("{}main.ts", H_FILE), Lang::Ts);
   let mut body = String::new();
-  for (i, p) in pkgs.iter().enumerate().filter(|(_, p)| !p.member) {
+  for p in pkgs.iter().filter(|p| p.pin == Some(true)) {
+    // first, so that the old version is selected before the other package's
+    // requirement is resolved (and unified with it)
+    body.push_str(&format!("import * as pin from \"jsr:{}@1\";\n", p.name));
+  }
+  for (i, p) in pkgs.iter().enumerate().filter(|(_, p)| !p.member && p.pin.is_none()) {
     if i == 0 || with_extra_import {
       body.push_str(&format!("import * as p{} from \"jsr:{}@1\";\n", i, p.name));
     }
@@ -591,7 +606,24 @@ pub fn run_case(tape: &mut Tape, _tier: Tier, _p: &CaseParams) -> CaseOutcome {
       }
       barrel = true;
     }
+    // the dependency package has a newer version too, and a helper package
+    // privately imports the old one: when the root starts importing the
+    // helper, the first package's requirement unifies onto the old version
+    // while its cache entry still names the newer one
+    let multi = tape.draw(Stream::World, 3) == 2;
+    if multi {
+      dep.extra_versions.push("1.1.0".to_string());
+    }
     pkgs.push(dep);
+    if multi {
+      let mut pin = gen_pkg(tape, "@e/pin", None);
+      let m = pin.files.get_mut("/mod.ts").unwrap();
+      m.insert(0, "import * as dpin from \"jsr:@c/d@1.0.0\";".to_string());
+      m.push("function usePin(): unknown { return dpin; }".to_string());
+      pin.pin = Some(false);
+      pin.exports.retain(|k, _| k == ".");
+      pkgs.push(pin);
+    }
   } else {
     pkgs.push(gen_pkg(tape, "@a/b", None));
   }
@@ -602,7 +634,7 @@ pub fn run_case(tape: &mut Tape, _tier: Tier, _p: &CaseParams) -> CaseOutcome {
   let member_versioned = tape.draw(Stream::World, 2) == 0;
   let use_dts = tape.draw(Stream::World, 4) == 3;
   if with_member {
-    let dep_name = pkgs.last().unwrap().name.clone();
+    let dep_name = if two { "@c/d".to_string() } else { "@a/b".to_string() };
     if !two {
       pkgs[0]
         .files
@@ -630,6 +662,13 @@ pub fn run_case(tape: &mut Tape, _tier: Tier, _p: &CaseParams) -> CaseOutcome {
     let l = if two && tape.draw(Stream::World, 5) == 4 {
       extra_import = !extra_import;
       format!("root: direct import of @c/d {}", if extra_import { "added" } else { "removed" })
+    } else if pkgs.iter().any(|p| p.pin.is_some()) && tape.draw(Stream::World, 3) == 2 {
+      let p = pkgs.iter_mut().find(|p| p.pin.is_some()).unwrap();
+      p.pin = Some(p.pin != Some(true));
+      format!(
+        "root: import of the helper package that pins @c/d@1.0.0 {}",
+        if p.pin == Some(true) { "added" } else { "removed" }
+      )
     } else if pkgs[0].exports.contains_key("./extra") && tape.draw(Stream::World, 6) == 5 {
       // the set of used exports (= entrypoints = cache key) changes
       pkgs[0].root_imports_extra = !pkgs[0].root_imports_extra;
